@@ -34,6 +34,21 @@ def parseZTable (args : List String) : Option (String × ZArrays) :=
     | none => none
   | _ => none
 
+/-- C07, second half ("positions differing in one component get different hashes"): the keys that separate two positions
+differing in one component - the 768 piece keys, the differences of the 16 castling keys, the 16 reachable en-passant keys
+and the side key - must be non-zero and pairwise distinct. Printed as `ok keys=<n> dup=<d> zero=<z>`; the reference demands
+`dup=0 zero=0`. -/
+def ztableQuality (z : ZArrays) : String :=
+  let pieceKeys := (List.range 896).filterMap fun i => if (i / 64) % 7 == 0 then none else some (z.pieces.getD i 0)
+  let c0 := z.castling.getD 0 0
+  let castleKeys := (List.range 15).map fun i => (z.castling.getD (i + 1) 0) ^^^ c0
+  let epKeys := ((List.range 8).map fun i => z.enpassant.getD (16 + i) 0) ++ ((List.range 8).map fun i => z.enpassant.getD (40 + i) 0)
+  let keys := pieceKeys ++ castleKeys ++ epKeys ++ [z.turnB]
+  let zeros := (keys.filter (· == 0)).length
+  let sorted := keys.toArray.qsort (· < ·) |>.toList
+  let dup := (sorted.zip (sorted.drop 1)).filter (fun (a, b) => a == b) |>.length
+  s!"ok keys={keys.length} dup={dup} zero={zeros} ## ok keys={keys.length} dup=0 zero=0"
+
 def fmtResult (r : Result) : String :=
   match r.outcome, r.reason with
   | .draw, .repetition3 => "D:rep3" | .draw, .repetition5 => "D:rep5" | .draw, .noProgress => "D:np"
